@@ -29,6 +29,9 @@ type ReplicateMsg struct {
 	PChannelName   string
 	TaskID         string
 	MsgPack        *msgstream.MsgPack
+	// SourceEndTs is the end timestamp of the pack in the source channel,
+	// the timestamps of the MsgPack, which is handed to the writer, are the timestamps of the target channel
+	SourceEndTs uint64
 }
 
 func GetReplicateMsg(pchannelName string, collectionName string, collectionID int64, msgPack *msgstream.MsgPack, taskID string) *ReplicateMsg {
